@@ -836,6 +836,27 @@ pub fn replay(price: u64, ns: Uuid, ops: &[HOp], extra: &mut dyn FnMut(usize, &P
     tr
 }
 
+/// Replays a fixed operation list on a fresh level WITHOUT taking any observation between the
+/// operations: the level receives no read-only call at all until the end (C07 purity baseline).
+pub fn replay_blind(price: u64, ns: Uuid, ops: &[HOp]) -> (Vec<HRes>, Obs) {
+    let mut sut = Sut::new(price, ns);
+    let mut out = Vec::with_capacity(ops.len());
+    for op in ops {
+        if matches!(op, HOp::Read(_)) {
+            out.push(HRes::Read);
+            continue;
+        }
+        let (res, _) = sut.apply(op);
+        let bad = matches!(res, HRes::Panicked(_) | HRes::Overrun);
+        out.push(res);
+        if bad {
+            break;
+        }
+    }
+    let fin = observe(&sut.level);
+    (out, fin)
+}
+
 pub fn kind_cells(tr: &Trace, cells: &mut std::collections::BTreeMap<String, u64>) {
     for r in &tr.recs {
         let cls = r.op.class();
